@@ -8,14 +8,17 @@ from fractions import Fraction as F
 from .. import core, history, oracle, rulegen, rules, ruleprops, solverbox
 from ..core import Case
 from ..ruleprops import violation
-from . import C02
+from . import C02, C04_ilp
 
 RULE = ("seeded elections with <=10 projects (<=8 in the quick tier), integer and fractional costs, every additive measure (integer- and "
         "fraction-valued), initial allocations, Profile/MultiProfile; primal/dual run in-process and diffed with the Lean model (set and "
         "value); ILP path run in a child process with every solver answer re-validated exactly against the model it was given (faults "
         "discarded); predicate = brute force over all subsets; non-trivial = >=4 undecided projects and the optimum is not 'take everything'")
 ASSUMPTIONS = ["additive measures", "feasible initial allocation"]
-TRUSTED = ["CBC answers re-validated exactly by harness/mipcheck.py; solver faults are discarded, as the property states"]
+TRUSTED = ["CBC answers re-validated exactly by harness/mipcheck.py; solver faults are discarded, as the property states",
+           "ILP path: the only solver hypothesis of the theorems is WelfareILP.SolverSpec (an answer is an optimal feasible point of the program given, "
+           "'none' only if infeasible); the programs python-mip is given are captured at every optimize() and equal the model's (props/C04_ilp.py); "
+           "doubles for coefficients and the float '== opt_value' are modelled-not-verified"]
 
 
 def profit_for(it_case, cfg):
@@ -70,6 +73,7 @@ def run(ctx, compare=True, n_pd=None, n_ilp=None):
     n_ilp = n_ilp if n_ilp is not None else ctx.scale(150, 1200)
     ruleprops.run_items(ctx, pairs(ctx, n_pd, m_hi), predicate_pd, nontrivial, compare=compare)
     history.run_history(ctx, "maxw", ctx.scale(200, 2000))
+    C04_ilp.run(ctx, lambda n: pairs(ctx, n, min(m_hi, 7)), ctx.scale(120, 1000) if n_ilp else 0)  # programs built by the library == programs of the Lean model
     # ILP path, isolated
     box = solverbox.Box()
     try:
@@ -119,12 +123,7 @@ def replay(payload):
     case = Case.from_json(payload["case"])
     cfg = ruleprops.cfg_from_json(payload["cfg"])
     if cfg.get("algo") == "ilp":
-        box = solverbox.Box()
-        try:
-            ans = box.ask({"case": case.to_json(), "cfg": ruleprops.cfg_json(cfg)})
-        finally:
-            box.close()
-        return True, "ILP replay answer: " + ans
+        return C04_ilp.replay(case, cfg)
     built = rules.Built(case, multi=cfg.get("multi", False))
     ans, raw = rules.impl_answer(built, cfg)
     it = ruleprops.Item(case, cfg, built, ans, raw, None)
